@@ -11,7 +11,7 @@ Corruption faults (bit flip, overwrite, shorten, wrong secrets) are judged on (a
 """
 import random
 
-from vlib import e2e, engine, gen, netsynth as ns, outparse, quicsynth, scene, tcpcap, tlssynth
+from vlib import corpus, e2e, engine, gen, netsynth as ns, outparse, quicsynth, scene, tcpcap, tlssynth
 
 KINDS = ["delete", "cut", "keys", "keys-cut", "cbc-pad", "wrongkeys", "suite", "flip", "overwrite", "shorten", "noise-http", "noise-udp", "noise-udp-short"]
 UNKNOWN_SUITES = [0x0A0A, 0x0000, 0xFFFF, 0xC03C, 0x0001, 0x1306, 0x5600, 0xFAFA]
@@ -98,8 +98,13 @@ def build(tier, seed):
     for i in range(nscenes):
         for k in KINDS:
             cases.append({"id": f"scene{i}-{k}", "scene": i, "kind": k})
+    real = corpus.tls_captures() + corpus.quic_captures(big=False)
+    for name, path, _, _ in (real if thorough else real[3::6]):         # the repository's real captures with faults (one connection each: only 'the run never fails' and a well-formed output are judged)
+        cases.append({"id": f"real-{name}", "real": name, "scene": -1, "kind": "real"})
 
     def evalfn(case):
+        if case.get("real"):
+            return eval_real(case, random.Random(engine.subseed("C03", seed, case["id"])), thorough)
         return eval_case(case, seed, thorough)
 
     def extra(results):
@@ -113,6 +118,60 @@ def build(tier, seed):
                      "1..1500 and all lengths 1..8, with and without -a. Class = (victim kind, fault kind, position class, outcome); non-trivial = the fault run completed "
                      "and bystanders/victim were compared against the fault-free run of the same scene",
                 assumptions=["fault-free run of the scene is exact (checked per scene; otherwise inconclusive)"])
+
+
+def eval_real(case, rng, thorough):
+    name, path, keys, xo = next(c for c in corpus.tls_captures() + corpus.quic_captures(big=False) if c[0] == case["real"])
+    items = [it for it in corpus.load(path) if it[0] == "pkt"]
+    out = {"cls": ["real", name], "tags": ["kind:real", "victim:real"], "sample": {"case": case["id"], "capture": name, "packets": len(items)}}
+    base, files, argv = e2e.run_capture(ns.pcapng(items), keys, xo)
+    fail = e2e.run_failed(base)
+    if fail:
+        return dict(out, v="inconclusive" if fail.startswith("INCONCLUSIVE") else "violated", msg="fault-free run: " + fail, files=files)
+    def plen(fr):
+        seen = []
+        return len(seen[0]) if corpus.reframe_raw(fr, lambda p: seen.append(p) or p) is not None and seen else 0
+    carrying = [i for i, it in enumerate(items) if plen(it[2]) > 0]
+    bad, units, classes, crash_tags = [], 0, set(), set()
+    for i in (carrying if thorough or len(carrying) <= 16 else sorted(rng.sample(carrying, 16))):
+        for kind in ("delete", "flip", "overwrite", "shorten", "keys-cut"):
+            ks = keys
+            if kind == "delete":
+                its = items[:i] + items[i + 1:]
+            elif kind == "keys-cut":
+                ks = keys[:rng.randrange(0, len(keys) + 1)]
+                its = items
+            else:
+                def mod(p, kind=kind):
+                    p = bytearray(p)
+                    j = rng.randrange(len(p))
+                    if kind == "flip":
+                        p[j] ^= 1 << rng.randrange(8)
+                    elif kind == "overwrite":
+                        n = rng.randrange(1, 40)
+                        p[j:j + n] = rng.randbytes(len(p[j:j + n]))
+                    else:
+                        del p[j:]
+                    return bytes(p)
+                its = items[:i] + [("pkt", items[i][1], corpus.reframe_raw(items[i][2], mod))] + items[i + 1:]
+            units += 1
+            r, f2, a2 = e2e.run_capture(ns.pcapng(its), ks, xo)
+            fail = e2e.run_failed(r)
+            if fail:
+                if fail.startswith("INCONCLUSIVE"):
+                    continue
+                crash_tags.add(f"crash:{r.crash_signature()}")
+                bad.append((f"{kind} at packet {i}: {fail[:700]}", f2))
+                classes.add((kind, "run-failed"))
+                continue
+            errs = outparse.Analysis(r.out).errors
+            classes.add((kind, "ok" if not errs else "malformed-output"))
+            if errs:
+                bad.append((f"{kind} at packet {i}: output is not well-formed: {errs[0]}", dict(f2, **{"out.pcapng": r.out})))
+    out.update(units=units, classes=[["real", name] + list(c) for c in sorted(classes)], nontrivial=units > 0, tags=out["tags"] + sorted(crash_tags))
+    if bad:
+        return dict(out, v="violated", msg=f"real capture {name}: {len(bad)} of {units} faults; first: {bad[0][0]}", files=bad[0][1])
+    return dict(out, v="held")
 
 
 def eval_case(case, seed, thorough):
